@@ -1181,3 +1181,83 @@ def same_type_fanin(prog: Program, limit: int = 3) -> bool:
             if visit(e):
                 return True
     return False
+
+
+def shared_source_shape(prog: Program) -> bool:
+    """True if a named signal is a direct operand of two or more combinators-to-be and one of those also
+    has another signal operand: the wiring shape in which the open finding F-leak lives (sources wired on
+    one colour to sinks that share another source end up on one network). Abstract-level predicate over
+    the program text only; conservative (may say True for programs the compiler wires correctly)."""
+    decls = {s.name: s for s in prog.stmts if isinstance(s, Decl)}
+
+    def strip(e):
+        while isinstance(e, Paren):
+            e = e.e
+        return e
+
+    def root(name, depth=0):
+        d = decls.get(name)
+        if d is None or depth > 20:
+            return name
+        e = strip(d.e)
+        if isinstance(e, Ref) and d.kind == "Signal":
+            return root(e.name, depth + 1)
+        return name
+
+    def is_const(e):
+        e = strip(e)
+        if isinstance(e, Num):
+            return True
+        if isinstance(e, Ref):
+            d = decls.get(e.name)
+            return d is not None and d.kind == "int"
+        if isinstance(e, Un):
+            return is_const(e.e)
+        if isinstance(e, Bin):
+            return is_const(e.l) and is_const(e.r)
+        return False
+
+    uses: dict = {}  # root name -> list of (node id, number of non-constant operands of that node)
+
+    def operands(e):
+        e = strip(e)
+        if isinstance(e, Cond):
+            return operands(e.c) + [e.v]
+        if isinstance(e, Bin) and e.op in LOGIC_OPS:
+            out = []
+            for part in _flatten_logic(e, e.op, []):
+                part = strip(part)
+                out += [part.l, part.r] if isinstance(part, Bin) and part.op in CMP_OPS else [part]
+            return out
+        if isinstance(e, Bin):
+            return [e.l, e.r]
+        if isinstance(e, (Un, Proj)):
+            return [e.e]
+        return []
+
+    def visit(e):
+        e = strip(e)
+        ops = operands(e)
+        if ops:
+            live = [o for o in ops if not is_const(o)]
+            for o in live:
+                o = strip(o)
+                if isinstance(o, Ref):
+                    uses.setdefault(root(o.name), []).append((id(e), len(live)))
+            for o in ops:  # the absorbed comparison / chain parts are this same combinator: go on below them
+                visit(o)
+            return
+        for c in children(e):
+            if not isinstance(c, str):
+                visit(c)
+
+    for s in prog.stmts:
+        for e in stmt_exprs(s):
+            visit(e)
+    for lst in uses.values():
+        nodes = {}
+        for nid, n in lst:
+            nodes[nid] = max(nodes.get(nid, 0), n)
+        if len(nodes) >= 2 and any(n >= 2 for n in nodes.values()):
+            return True
+    return False
